@@ -24,4 +24,30 @@ theorem restart_serialized :
      guarded "shovel.Manager.Run" ["tm.tasks", "tm.restart"] "tm.running") = true := by
   decide +kernel
 
+/-- the events of `fn` -/
+def evsOf (fn : String) : List Ev := match events.find? (·.1 == fn) with | some e => e.2 | none => []
+
+/-- the events of a list that lie outside every `select` statement -/
+def outsideSelect : List Ev → Nat → List Ev
+  | [], _ => []
+  | .selectStart :: r, d => outsideSelect r (d + 1)
+  | .selectEnd :: r, d => outsideSelect r (d - 1)
+  | e :: r, d => if d = 0 then e :: outsideSelect r d else outsideSelect r d
+
+/-- **restart_waits_for_run**: `Restart` returns only with the report of the `Run` it started — its last
+    operation is an UNCONDITIONAL receive from the report channel (not one alternative of a `select`
+    next to a timer or a default) — and `Run` reports exactly there: a send in the branch that returns the
+    load error, a `close` after the new generation's channel is installed; both while `tm.running` is held.
+    (`restart_complete` / `no_runner_at_ack` are proved about a protocol in which the restart's
+    acknowledgement IS the new generation's report.) -/
+theorem restart_waits_for_run :
+    ((evsOf "shovel.Manager.Restart").getLast? == some (.recv "ec") &&
+     (outsideSelect (evsOf "shovel.Manager.Restart") 0).getLast? == some (.recv "ec") &&
+     ((evsOf "shovel.Manager.Restart").filter (· == .recv "ec")).length == 1 &&
+     ((evsOf "shovel.Manager.Run").filter (· == .send "ec")).length == 1 &&
+     ((evsOf "shovel.Manager.Run").filter (· == .closeCh "ec")).length == 1 &&
+     -- the close comes after the write of the generation channel
+     (((evsOf "shovel.Manager.Run").dropWhile (· != .write "tm.restart")).contains (.closeCh "ec"))) = true := by
+  decide +kernel
+
 end Shovel.Manager
